@@ -289,6 +289,15 @@ MSpec == Init /\ out = "" /\ lastA = "" /\ [][Next /\ TablesOk /\ UNCHANGED <<ou
 (* reached, but not every PAIR of requests)                                                      *)
 RSpec == Init /\ out = "" /\ lastA = "" /\ [][Next /\ TablesOk /\ UNCHANGED <<out, lastA>> /\ (n' = n + 1 /\ n > 0 => req' = req)]_<<vars, out, lastA>>
 
+(* file mode, model checking: the same with the edits drawn from a smaller set of tables (uBlank   *)
+(* untouched, uColon there or removed, uPlain in every state; the empty table): the state space   *)
+(* is the product of (current table, set of earlier tables) with everything else; basicAuth alone *)
+FileMcTables == {t \in UserTables : \/ (t["uBlank"] = "v1" /\ t["uColon"] \in {"v1", "gone"})
+                                     \/ (\A u \in KnownUsers : t[u] = "gone")}
+FSpec == Init /\ cfg.hdr = "off" /\ out = "" /\ lastA = ""
+         /\ [][Next /\ (ne' = ne + 1 => users' \in FileMcTables) /\ UNCHANGED <<out, lastA>>
+                /\ (n' = n + 1 /\ n > 0 => req' = req) /\ Canon]_<<vars, out, lastA>>
+
 (* every single mutation of a not yet mutated request (carrying one token at most) that must be *)
 (* accepted is itself one of the enumerated vectors, i.e. it is executed on the real code from  *)
 (* the same concrete request                                                                    *)
